@@ -654,6 +654,35 @@ def large_programs_c17():
     prog("hutch_f4_n10500", 10500, "hutch", dtype="f4", tol=0.5, max_iters=1, key=3, k=0)
     prog("hutch_c8_rademacher_n10500", 10500, "hutch", dtype="c8", tol=0.5, max_iters=1, key=4, k=0, rand="rademacher")
     prog("lanczos_f4_n2p20", 2**20 + 5, "lanczos", dtype="f4", max_iters=1, key=3)
+    # nesting at large size: the user operator's product itself runs a keyed routine on ANOTHER operator of the same size and
+    # dtype (probe blocks / start vectors of >= 1 MiB); then the same call, not nested -- must be bit-identical
+    for n in (1500, 2700):
+        for dt in ("f8", "f4"):
+            An = {"k": "ann", "name": "PSD", "of": {"k": "probe", "inner": {"k": "diag", "n": n, "dtype": dt, "seed": 6, "pos": True},
+                                                     "pid": 0}}
+            Bn = {"k": "ann", "name": "PSD", "of": {"k": "no_dispatch", "of": {"k": "diag", "n": n, "dtype": dt, "seed": 7, "pos": True}}}
+            for nm, outer, inner in [
+                    ("hutch_in_hutch", ("hutch", {"tol": 0.5, "max_iters": 2, "key": 3, "k": 0}),
+                     ("hutch", {"tol": 0.5, "max_iters": 1, "key": 5, "k": 0})),
+                    ("hutch_rademacher_in_hutch", ("hutch", {"tol": 0.5, "max_iters": 1, "key": 3, "k": 1}),
+                     ("hutch", {"tol": 0.5, "max_iters": 1, "key": 3, "k": 0, "rand": "rademacher"})),
+                    ("lanczos_in_hutch", ("hutch", {"tol": 0.5, "max_iters": 1, "key": 3, "k": 0}), ("lanczos", {"max_iters": 2, "key": 3})),
+                    ("hutch_in_lanczos", ("lanczos", {"max_iters": 3, "key": 4}), ("hutch", {"tol": 0.5, "max_iters": 1, "key": 4, "k": 0})),
+                    ("power_in_power", ("power_iteration", {"max_iter": 3, "key": 2}), ("power_iteration", {"max_iter": 2, "key": 2})),
+                    ("slq_in_hutch", ("trace_hutch", {"tol": 0.5, "max_iters": 1, "key": 8}),
+                     ("slq", {"fun": "exp", "max_iters": 2, "vtol": 1.0, "key": 8}))]:
+                if (n, dt) == (1500, "f4") and nm != "hutch_in_hutch":
+                    continue
+                c = {"op": "call", "fn": outer[0], "args": dict({"A": {"slot": "A0"}}, **outer[1])}
+                sub = {"op": "call", "fn": inner[0], "args": dict({"A": {"slot": "B0"}}, **inner[1])}
+                steps = [{"op": "make", "slot": "A0", "recipe": An}, {"op": "make", "slot": "B0", "recipe": Bn},
+                         dict(c, x={"cb": {"0": ["reenter", 0]}}, menu=[sub]), dict(c, repeat_of=2),
+                         {"op": "user", "act": ["draw", "randn", 2], "slot": "s0"}]
+                for j, st in enumerate(steps):
+                    st["id"] = j
+                name = "nested/%s/n=%d/%s" % (nm, n, dt)
+                out.append({"name": name, "program": {"property": "C17", "run_seed": 0, "rng0": 9, "config": {"large": name},
+                                                      "mode": "explicit", "steps": steps}})
     prog("hutch_n101", 101, "hutch", tol=0.5, max_iters=2, key=3, k=0)
     prog("hutch_n1000", 1000, "hutch", tol=0.5, max_iters=1, key=3, k=-3)
     return out
